@@ -7,21 +7,15 @@ BASE_NOTE = ("Trusted: Coq 8.16.1 kernel (+vm_compute for finite sweeps), ExtrOc
              "(differential, generated cases) and a regenerated constants file; ")
 CLAIMED = {
  "C01": dict(
-   text="Hand-written executable Gallina model of the whole optimisation pipeline (from_slice, all reductions incl. palette sorters, perform_reductions, "
-        "evaluator, perform_trials, optimize_raw/png, output), replayed against the real code on every run under the recorded zlib oracle: byte-identical outputs. "
-        "Machine-checked theorems (Properties/C01.v, labelled _partial): per-pixel losslessness of the 8/16-bit reductions incl. the colour-key conversion, and the row-filter stage. "
-        "Every image any reduction produces and every output file (also after 2-3 chained runs) is decoded by the extracted specification and compared with the input at 16-bit RGBA.",
+   text="Hand-written executable Gallina model of the whole optimisation pipeline (from_slice, all reductions incl. palette sorters, perform_reductions, evaluator, perform_trials, optimize_raw/png, output), replayed against the real code on every run under the recorded zlib oracle: byte-identical outputs, and no compressor call the model does not predict. Machine-checked theorems (Properties/C01.v): (1) per-pixel exactness of the sample mappings; (2) IMAGE LEVEL, every width/height/interlacing: 16->8, sub-byte expansion and reduction, RGB(A)->gray(A), alpha removal, ->indexed, indexed->channels, palette condensation, luma sort, palette reorders covering the used indices, Adam7 interlacing each keep a well-formed image at its meaning (Spec/Sem); (3) PIPELINE: perform_reductions keeps the baseline and every candidate, optimize_raw's choice, the filtered stream behind the emitted IDAT (all ten strategies) and finally the BYTES WRITTEN (decoded by the specification's whole-file decoder Spec/DecodeFile: strict container, IHDR, PLTE/tRNS, inflate, un-filtering, Adam7, colour) at the picture the input image means - for every option vector with the lossy switches off, every compressor, evaluator schedule and clock. Every image any reduction produces and every output file (also after 2-3 chained runs) is additionally decoded by the extracted specification and compared with the input at 16-bit RGBA.",
    design="DESIGN.md §3 C01",
-   note=BASE_NOTE + "PARTIAL: the lift of the pixel lemmas to whole images (layout invariance), the palette/sub-byte reductions and the pipeline composition are not yet proved in Coq; "
-        "they are decided per run by correspondence + specification oracle. zlib is an oracle (compressors deterministic, inflate(deflate x) = x; re-validated with Python zlib).",
-   technique="Coq proof (pixel-level lemmas, filter round trip) + whole-pipeline model replay + extracted spec decoder as oracle"),
+   note=BASE_NOTE + "PARTIAL, named in the theorems: the record `leaves` (meaning-preservation of deinterlace_image and of the mzeng/battiato sorters' re-indexing) and, for the file-level theorem, the zlib hypothesis inflate(deflate x)=x plus container side conditions (chunk payloads < 2^31, no ancillary chunk named IEND/PLTE/tRNS/IDAT, encodable header fields); the parse of the INPUT file into the image is by correspondence. These are decided per run by correspondence + specification oracle. zlib is an oracle (re-validated with Python zlib).",
+   technique='Coq proof (image-level lifting theorems, finite byte tables by vm_compute over complete domains, pipeline invariant, filter/stream/file decode) + whole-pipeline model replay + extracted spec decoder as oracle'),
  "C03": dict(
-   text="Machine-checked (Properties/C03.v): alpha-equivalence is an equivalence relation and every recolouring of a fully transparent pixel (incl. replacement by a colour-key sample) stays inside it. "
-        "The model of optimize_alpha (all five filter branches, threaded line data), cleaned/reduced alpha and the palette/channel variants is tied to the code differentially; "
-        "every filtered stream and every --alpha output file is decoded by the extracted specification and must be alpha-equivalent to the input.",
+   text='Machine-checked (Properties/C03.v): alpha-equivalence is an equivalence on pixels and pictures; IMAGE LEVEL (every size, interlaced or not): blackening of transparent pixels, alpha channel -> colour key with an unused colour, palette condensation with merged transparent entries and indexed->channels with alpha optimisation map a well-formed image that means pic to one that means an alpha-equivalent picture; PIPELINE: with alpha optimisation on or off every candidate of perform_reductions and the image optimize_raw chooses are alpha-equivalent to the input. The model of optimize_alpha (all five filter branches, threaded line data) is tied to the code differentially; every filtered stream and every --alpha output file is decoded by the extracted specification and must be alpha-equivalent to the input.',
    design="DESIGN.md §3 C03",
-   note=BASE_NOTE + "PARTIAL: image-level lift not yet proved in Coq (same layout argument as C01).",
-   technique="Coq proof (pixel-level) + differential correspondence + spec oracle (alpha-equivalence)"),
+   note=BASE_NOTE + 'PARTIAL: same `leaves` as C01; the filter-specific rewriting of transparent pixels inside filter_image (rows) and the container are by correspondence + oracle.',
+   technique='Coq proof (relational lifting of alpha-equivalence, alpha_scan invariant, palette normalisation) + differential correspondence + spec oracle (alpha-equivalence)'),
  "C14": dict(
    text="Machine-checked (Properties/C14.v): the COMPLETE decision table of preprocess_chunks (what happens to the iCCP chunk and which switches are turned off) as an equation, and its corollaries in the words of the property: "
         "ICC kept (as is or recompressed) => grayscale conversion off; sRGB-tagged => conversion only if stripping enabled; replacement by sRGB only if stripping enabled, sRGB kept and profile recognised, with intent = byte 67; dropped for an existing sRGB only under the same policy condition; "
@@ -30,18 +24,18 @@ CLAIMED = {
    note=BASE_NOTE + "the three CRC-identified known-bad profiles (3 KB each) are covered by the table-lookup correspondence only.",
    technique="Coq proof (exhaustive case analysis of the decision function) + regenerated constants + model replay + declarative oracle"),
  "C15": dict(
-   text="Machine-checked (Properties/C15.v): the scaling function equals round(v/257) on all 16-bit values, that is the unique nearest 8-bit value (no ties), the colour key is rounded the same way, "
-        "and every scaled pixel means exactly the rounded samples under the rounded key. The Rust f32 expression is tied to the integer model EXHAUSTIVELY (65536 values) and in every channel position of every 16-bit colour type on each run; "
-        "end-to-end --scale16 outputs are decoded by the extracted specification.",
+   text='Machine-checked (Properties/C15.v): the scaling function equals round(v/257) on all 16-bit values, that is the unique nearest 8-bit value (no ties), the colour key is rounded the same way, every scaled pixel means exactly the rounded samples under the rounded key, and IMAGE LEVEL: the scaled image means the input picture with every sample and the key rounded, for every size, interlaced or not. The Rust f32 expression is tied to the integer model EXHAUSTIVELY (65536 values) and in every channel position of every 16-bit colour type on each run, plus images whose samples share a byte pattern (whole-image shortcuts); end-to-end --scale16 outputs are decoded by the extracted specification.',
    design="DESIGN.md §3 C15",
-   note=BASE_NOTE + "f32 arithmetic of rustc is not modelled in Flocq; it is compared exhaustively instead. Scaling belongs to the bit-depth class: with bit-depth changes disabled (C08) nothing is scaled. Image-level lift as in C01 (partial).",
-   technique="Coq proof (lia over all 16-bit values) + exhaustive correspondence + spec oracle"),
+   note=BASE_NOTE + 'f32 arithmetic of rustc is not modelled in Flocq; it is compared exhaustively instead. Scaling belongs to the bit-depth class: with bit-depth changes disabled (C08) nothing is scaled.',
+   technique='Coq proof (lia over all 16-bit values; image-level lift) + exhaustive correspondence + spec oracle'),
  "C02": dict(
    text="Machine-checked (Properties/C02.v): `output` is the signature followed by the serialisation of an explicit chunk sequence; the specification's strict container parser (lengths, CRC over type+data, IEND last, nothing after) "
-        "accepts it and reads back exactly that sequence, for every PngData with well-formed chunk names; the sequence is IHDR(13 bytes from the header) … single IDAT … IEND with PLTE/tRNS synthesised from the header before IDAT; CRC-32 fits 32 bits. "
+        "accepts it and reads back exactly that sequence, for every PngData with well-formed chunk names; the sequence is IHDR(13 bytes from the header) … single IDAT … IEND with PLTE/tRNS synthesised from the header before IDAT; CRC-32 fits 32 bits; "
+        "the specification's WHOLE-FILE decoder (Spec/DecodeFile.v) reads the written file as the inflated IDAT content under exactly the header and palette/key of the written image (C02_output_decodes); "
+        "the IDAT content of the emitted candidate is the compressor's answer for a stream that the specification cuts into exactly the rows the header implies, each with a filter type 0..4, and that un-filters to the image data (C02_idat_content_partial). "
         "Every output of every run (PNG, chunk-rich, APNG; all options incl. lossy, zopfli, force, strip) is validated by a strict validator written from the specification and decoded by the extracted spec; a constraint counts only if the input satisfied it.",
    design="DESIGN.md §3 C02",
-   note=BASE_NOTE + "PARTIAL: validity of the IDAT zlib stream/size/filter types and palette-index range are consequences of the pipeline composition under the zlib oracle, decided per run by the validator oracle. "
+   note=BASE_NOTE + "PARTIAL: the IDAT-content theorem is under the record `leaves` of C01 and for runs without alpha rewriting; that inflate undoes the compressor is the zlib oracle assumption; the input-relative ordering constraints of ancillary chunks are decided per run by the validator oracle. "
         "F8 (hIST kept without PLTE) was repaired (fix 2fc6ac2).",
    technique="Coq proof (serialise/parse round trip by induction over the chunk list; CRC range via log2/lxor bounds) + strict validator oracle"),
  "C04": dict(
@@ -133,20 +127,22 @@ CLAIMED = {
  "C18": dict(
    text="Machine-checked theorems (Properties/C18.v), for every width and height >= 1 and every pixel size >= 1 bit, no bound: the scan-line iterator emits exactly the "
         "specification's Adam7 pass rows and byte lengths (empty passes omitted); raw_data_size equals the specification's total; the routing table of interlace_image is the "
-        "specification's 8x8 matrix; the pixel routing of interlace_image equals the specification's pass images; the k-th pixel of a pass row is source pixel x0+k*dx. "
+        "specification's 8x8 matrix; the pixel routing of interlace_image equals the specification's pass images; the k-th pixel of a pass row is source pixel x0+k*dx; "
+        "ROUND TRIP: the specification's de-interlacing of an interlaced image returns the image (spec_deinterlace (spec_interlace rows) = Some rows, every w, h) and each pixel is read back where it was; "
+        "WHOLE IMAGES, bytes in and bytes out: interlace_image (scan lines -> pixels -> pass rows -> packed, padded bytes) yields data that the specification's Adam7 layout reads back as the same picture. "
         "Tied to the code on every run over every geometry of the tier and decoded by the extracted specification in both directions and there-and-back.",
    design="DESIGN.md §3 C18",
-   note=BASE_NOTE + "interlace/deinterlace are modelled at pixel granularity (the Rust moves single bits/bytes with the same index arithmetic). The general theorem for the "
-        "deinterlace scatter loop (deinterlace after interlace = identity for all w,h) is not yet proved; that direction is tied by correspondence and the spec oracle on all geometries of the tier. "
+   note=BASE_NOTE + "interlace/deinterlace are modelled at pixel granularity (the Rust moves single bits/bytes with the same index arithmetic). The code's own de-interlacing state machine (deinterlace_image) is not yet proved equal to the specification's; that direction is tied by correspondence and the spec oracle on all geometries of the tier. "
         "u32 overflow of row+step for heights near 2^32 (needs > 8 GB of image data) is not modelled.",
    technique="Coq proof (induction over passes/rows, lia with div/mod, finite 8x8x7 table by vm_compute lifted through mod 8) + per-geometry correspondence"),
  "C19": dict(
    text="Machine-checked theorems (Properties/C19.v): the specification's reconstruction inverts its filter for every filter type, pixel size and neighbour bytes; "
-        "oxipng's filter_line model equals the specification's filter and its unfilter_line equals the specification's reconstruction (all lines, no length bound). "
+        "oxipng's filter_line model equals the specification's filter and its unfilter_line equals the specification's reconstruction (all lines, no length bound); "
+        "IMAGE and STREAM LEVEL: for all ten strategies (any choice oracle for Brute) the rows filter_image writes for an image of any size, interlaced or not - first rows of the image and of every pass, the all-zero-row shortcut and its stale-pass corner included - have filter types 0..4 and are reconstructed by the specification's decoder of a whole (possibly interlaced) image to exactly the scan lines filtered; the concatenated stream un-filters to the image data. "
         "The model is tied to the code on every run: Paeth exhaustively (2^24), filter_line/unfilter_line/filter_image (10 strategies)/unfilter_image differentially, "
         "and everything oxipng writes is decoded by the extracted specification.",
    design="DESIGN.md §3 C19",
-   note=BASE_NOTE + "Brute strategy's per-row choice is a model oracle (instantiated with oxipng's own choices); libdeflate inside Brute is not modelled.",
+   note=BASE_NOTE + "Brute strategy's per-row choice is a model oracle (instantiated with oxipng's own choices; the theorems hold for every oracle); libdeflate inside Brute is not modelled. The image-level theorems are for runs without alpha rewriting; with -a the rows are checked per run (spec decode, alpha-equivalence). unfilter_image of foreign files is proved per line, per image by run.",
    technique="Coq proof (induction over scan lines, mod-256 arithmetic by lia) + exhaustive/differential correspondence with extracted model"),
 }
 ALL = [f"C{i:02d}" for i in range(1, 20)]
